@@ -184,13 +184,13 @@ func implView(o *WOutcome) string {
 	return "R=" + r + "\tT=" + strings.Join(el, "|") + "\tW=" + strings.Join(ws, "|")
 }
 
-func modelView(ans string) (view, g string) {
+func modelView(ans string) (view, g, h string) {
 	f := strings.Split(ans, "\t")
-	if len(f) != 4 {
-		return ans, ""
+	if len(f) != 5 {
+		return ans, "", ""
 	}
 	f[0] = "R=" + normAbort(strings.TrimPrefix(f[0], "R="))
-	return strings.Join(f[:3], "\t"), strings.TrimPrefix(f[3], "G=")
+	return strings.Join(f[:3], "\t"), strings.TrimPrefix(f[3], "G="), strings.TrimPrefix(f[4], "H=")
 }
 
 func behavEnc(b Behav) string {
